@@ -284,7 +284,7 @@ def run(scn):
         sc['tear'] = [len(p) for p in pcs[:-1]] + [0]
     else:
         sc['peer'] = [{'op': 'w', 'd': harness.l1(bdata), 'dt': 5}, end]
-    sc['timeout'] = 5
+    sc['timeout'] = 100000        # virtual seconds are free; a 40 KB token read one byte at a time takes more than a few of them
     sc['enc'] = tenc if mode == 'unicode' else None
 
     def body(r):
